@@ -70,15 +70,13 @@ Theorem c13_create_stores_current_values : forall c s r,
 Proof. exact stmt_create_stores. Qed.
 Print Assumptions c13_create_stores_current_values.
 
-(* update payload given as a map: the hook's value wins when the hook names the column by its
-   database name, or by its field name while the payload does not use the database name *)
-Theorem c13_update_map_partial : forall v m,
-  map_val (map_set KDb v m) = Some v
-  /\ (map_get KDb m = None -> map_val (map_set KField v m) = Some v).
-Proof. intros v m. split; [apply map_val_set_db | apply map_val_set_field]. Qed.
-Print Assumptions c13_update_map_partial.
+(* update payload given as a map: after SetColumn the stored value is the hook's, whatever spelling
+   (field name / column name) the hook and the caller used *)
+Theorem c13_update_map : forall k v m, map_val (map_set k v m) = Some v.
+Proof. exact map_val_set. Qed.
+Print Assumptions c13_update_map.
 
-(* ---- refuted at full strength (both replayed on the real gorm: corpus/C13/kf_*.json) ---- *)
+(* ---- refuted at full strength (replayed on the real gorm: corpus/C13/kf_mixed_*.json) ---- *)
 
 (* hooks of one phase declared partly on T and partly on *T: for a single struct the pointer-receiver
    hooks never fire although everything is addressable — [uniform_all] in [op_ok] is the exact
@@ -98,28 +96,19 @@ Proof.
 Qed.
 Print Assumptions c13_log_refuted.
 
-(* Update with a map keyed by the column name + a BeforeUpdate hook calling SetColumn with the field
-   name: the caller's value is stored, not the hook's *)
+(* the former counterexample (Update with a map keyed by the column name + a BeforeUpdate hook calling
+   SetColumn with the field name; fixed in gorm, corpus/C13/kf_setcolumn_key.json): the hook's value
+   is the one stored *)
 Definition t1 := mk_ty 1 RPtr RPtr RPtr RPtr RPtr RPtr RPtr RPtr RPtr.
 Definition w_setcol : op :=
   mk_op OUpdate t1 (mk_shape CStruct true false) [mk_rec 1 1 10 false]
         (no_assocs (leaf_ty 12, leaf_ty 13, leaf_ty 14)) false TxDefault [] [1] KField 77 PVMapDb 0 [(TRecs, 1, 10)].
 
-Theorem c13_values_refuted : exists o,
-  op_ok o /\ s_err (run o) = [] /\ o_sets o = [1]
-  /\ nth_error (hooks_of (s_tr (run o))) 1 = Some (BeforeUpdate, 1, 1)
-  /\ In (TRecs, 1, 77) (s_tbl (run o)) /\ ~ In (TRecs, 1, 1001) (s_tbl (run o)).
-Proof.
-  exists w_setcol. split.
-  - split.
-    + intro p. unfold uniform_phase. cbn. left. intros h Hin. destruct p; cbn in Hin; intuition (subst; cbn; discriminate).
-    + cbn. split.
-      * unfold goodk, wf_shape. cbn. repeat split; try reflexivity; [eexists; reflexivity | discriminate].
-      * unfold assocs_ok, assoc_vals_ok. cbn. repeat split; try reflexivity; try lia;
-          unfold uniform_phase; cbn; left; intros h Hin; cbn in Hin; intuition (subst; cbn; discriminate).
-  - vm_compute. repeat split; auto. intros [H|H]; [discriminate|contradiction].
-Qed.
-Print Assumptions c13_values_refuted.
+Example c13_values_update_instance :
+  s_err (run w_setcol) = []
+  /\ nth_error (hooks_of (s_tr (run w_setcol))) 1 = Some (BeforeUpdate, 1, 1)
+  /\ s_tbl (run w_setcol) = [(TRecs, 1, 1001)].
+Proof. vm_compute. repeat split. Qed.
 
 (* ---- non-vacuity: an operation with associations, two records, a failing invocation, in [op_ok] ---- *)
 Definition w_ok : op :=
